@@ -5,13 +5,49 @@ from .. import oracle as o
 ID = 'C12'
 RULE = ('one record per (scalar, u) through curve25519 / curve25519_base / x25519::dh / x25519::base; result must equal the RFC 7748 ladder on Python integers; '
         'scalars: random, 0, all-ones, all 256 single-bit scalars, clamp-edge patterns; u: random, 0, 1, 2, 9, p-1, p, p+1, 2^255-20.., 2^255-1, 2^256-1, small-order '
-        'values and their bit-255 aliases, random with bit 255 set; base(k) == dh(k, 9); both parties of random exchanges; RFC 7748 iteration; '
+        'values and their bit-255 aliases, random with bit 255 set; base(k) == dh(k, 9); both parties of random exchanges; public keys crafted (inverse scalar on the prime-order subgroup of curve or twist) so that the shared secret is a chosen small / limb-boundary / near-p value; RFC 7748 iteration; '
         'distinct = (entry point, scalar class, u class)')
 ASSUMPTIONS = ['Python-int Montgomery ladder pinned by RFC 7748 5.2 vectors']
 FLOORS = {'evaluations': 1000, 'distinct': 600}
 P = 2 ** 255 - 19
 SMALL = [0, 1, 325606250916557431795983626356110631294008115727848805560023387167927233504,
          39382357235489614581723060781553021112529911719440698176882885853963445705823, P - 1, P, P + 1]
+
+
+A24 = 121665
+LT = (1 << 253) - 55484635554744707071703875581767296995     # prime order of the twist's large subgroup (twist order 4*LT)
+
+
+def raw_ladder(kn, x1):
+    """x-coordinate of [kn]Q for x(Q) = x1 with an unclamped scalar (None for the point at infinity); test generation only"""
+    x2, z2, x3, z3, swap = 1, 0, x1, 1, 0
+    for t in range(kn.bit_length() - 1, -1, -1):
+        kt = (kn >> t) & 1
+        swap ^= kt
+        if swap:
+            x2, x3, z2, z3 = x3, x2, z3, z2
+        swap = kt
+        A = (x2 + z2) % P; AA = A * A % P; B = (x2 - z2) % P; BB = B * B % P
+        E = (AA - BB) % P; C = (x3 + z3) % P; D = (x3 - z3) % P
+        DA = D * A % P; CB = C * B % P
+        x3 = (DA + CB) ** 2 % P; z3 = x1 * (DA - CB) ** 2 % P
+        x2 = AA * BB % P; z2 = E * (AA + A24 * E) % P
+    if swap:
+        x2, x3, z2, z3 = x3, x2, z3, z2
+    if z2 == 0:
+        return None
+    return x2 * pow(z2, P - 2, P) % P
+
+
+def craft_u(k_bytes, v):
+    """a u-coordinate with X25519(k, u) == v, or None when the point with x = v does not have prime order (then k*U can never be it)"""
+    kk = bytearray(k_bytes); kk[0] &= 248; kk[31] &= 127; kk[31] |= 64
+    kn = int.from_bytes(kk, 'little')
+    on_curve = pow((v * v * v + 486662 * v * v + v) % P, (P - 1) // 2, P) == 1
+    order = o.L if on_curve else LT
+    if v == 0 or raw_ladder(order, v) is not None:
+        return None
+    return raw_ladder(pow(kn, -1, order), v)
 
 
 def le(x):
@@ -60,6 +96,24 @@ def gen(tier, seed):
         B = o.x25519(bytes.fromhex(b), (9).to_bytes(32, 'little')).hex()
         yield 'x_dh %s %s #rnd|exchange' % (a, B)
         yield 'x_dh %s %s #rnd|exchange' % (b, A)
+    # result-directed: public keys crafted so that the shared secret is a chosen value with an extreme limb pattern
+    # (small integers, values next to 2^k limb boundaries, next to p) - the final field encoding sees its corner cases
+    from .c15 import structured_fe, LIMB_EXPS
+    cands = list(range(19, 120)) + [(1 << a) + d for a in LIMB_EXPS[1:] for d in (-2, -1, 0, 1, 2, 19)] + [P - d for d in range(1, 60)]
+    cands += [(1 << a) - (1 << b) for a in LIMB_EXPS for b in LIMB_EXPS if a > b] + [(1 << a) + (1 << b) for a in LIMB_EXPS for b in LIMB_EXPS if a > b and a < 255]
+    rng.shuffle(cands)
+    got = 0
+    for v in cands + [structured_fe(rng) % P for _ in range(3000)]:
+        v %= P
+        k = rng.bytes(32)
+        u = craft_u(k, v)
+        if u is None:
+            continue
+        assert o.x25519(k, u.to_bytes(32, 'little')) == v.to_bytes(32, 'little')
+        yield 'x25519 %s %s #rnd|directed-output' % (k.hex(), u.to_bytes(32, 'little').hex())
+        got += 1
+        if got >= (1200 if thorough else 220):
+            break
     nine = le(9)
     yield 'x25519_iter %s %s 1 #iter|1' % (nine, nine)
     yield 'x25519_iter %s %s %d 500 #iter|n' % (nine, nine, 10000 if thorough else 1000)
